@@ -549,8 +549,11 @@ def source_shape(chk: Check) -> str | None:
     detail = ''
     comp = fns.get('compile')
     if comp is not None:
-        keys = [n for n in ast.walk(comp) if isinstance(n, ast.Assign) and len(n.targets) == 1
-                and isinstance(n.targets[0], ast.Name) and n.targets[0].id == 'key' and isinstance(n.value, ast.Tuple)]
+        keys = [n for n in ast.walk(comp)
+                if ((isinstance(n, ast.Assign) and len(n.targets) == 1 and isinstance(n.targets[0], ast.Name)
+                     and n.targets[0].id == 'key')
+                    or (isinstance(n, ast.AnnAssign) and isinstance(n.target, ast.Name) and n.target.id == 'key'))
+                and isinstance(n.value, ast.Tuple) and len(n.value.elts) > 2]
         sem_assign = [n for n in ast.walk(comp) if isinstance(n, ast.Assign) and isinstance(n.targets[0], ast.Attribute)
                       and n.targets[0].attr == 'semantics']
         if len(keys) == 1:
@@ -679,8 +682,19 @@ def gen_history(rng, maxlen):
     n = rng.randint(2, maxlen)
     ops = []
     mvars, svars, pvars = [], [], []
+    parser_focused = rng.random() < 0.3
+    if parser_focused:
+        # one generated parser OBJECT reused for many parses (state must not survive a parse, failed or not)
+        g = focus[0]
+        ops.append({'op': 'gen', 'var': 0, 'a': {'g': g, 'name': rng.choice([0, 1, 2]), 'cs': 0}})
+        svars.append(ops[-1]['a'])
+        ops.append({'op': 'mkparser', 'var': 0, 'src': 0, 'cs': rng.choice([0, 0, 0, 2, 3, 5, 6]),
+                    'sem': rng.choice([None, None, 1, 2, 4])})
+        pvars.append({'src': 0, 'g': g})
     for _ in range(n):
         r = rng.random()
+        if parser_focused and r < 0.6:
+            r = 0.95
         if r < 0.30 or (not mvars and r < 0.5):
             a = gen_cargs(rng, rng.choice(focus))
             v = len(mvars)
@@ -760,7 +774,7 @@ class Abstraction:
         return self.rest_ix[key]
 
     def cargs(self, a):
-        opaque = 1 if (self.variant == 'r' and a.get('bopt') in OPAQUE_BOPTS and not a.get('sem')) else 0
+        opaque = 1 if (self.variant == 'r' and a.get('bopt') in OPAQUE_BOPTS) else 0
         return (f"({o2sx(a['name'] or None)} {a['g']} {o2sx(a.get('sem'))} {1 if a.get('asmodel') else 0} "
                 f"{o2sx(a.get('bopt'))} {a['cs']} {opaque})")
 
@@ -829,13 +843,21 @@ def sem_component(term):
     return term[0] + ':' + (term[1] if isinstance(term[1], str) else '')
 
 
-def classify_predicted(th, t0):
+def hybrid_term(th, t0):
+    """when both the grammar model and the semantics of T_h differ from T_0: T_h with the grammar model of T_0
+    (tells a leaked semantics from a grammar model compiled under other settings)"""
+    if th[0] in ('val', 'model') and t0[0] == th[0] and th[1] != t0[1] and th[2] != t0[2]:
+        return [th[0], t0[1]] + list(th[2:])
+    return None
+
+
+def classify_predicted(th, t0, hybrid_explains=False):
     """signature class of a history dependence the model predicts (T_h <> T_0)"""
     if th[0] == 'err' or t0[0] == 'err':
         if t0[0] == 'err' and t0[1] == 'boot' and th[0] != 'err':
             return 'history:settings-not-in-key:boot-error-masked'
         return f'history:error-differs:{sem_component(t0)}->{sem_component(th)}'
-    if th[1] != t0[1]:
+    if th[1] != t0[1] and not (th[2:3] != t0[2:3] and hybrid_explains):
         return 'history:settings-not-in-key:model-differs'
     if th[0] in ('val', 'model') and th[2] != t0[2]:
         return f'history:semantics-leak:{sem_component(t0)}->{sem_component(th)}'
@@ -922,9 +944,10 @@ def run_histories(chk: Check, pool: Pool, mr: ModelRun, variant: str):
             if i in pos:
                 th, t0 = rep[pos[i]]
                 if th != t0:
-                    ex = term_to_explicit(ab, th)
-                    if ex is not None:
-                        explicit_needed.setdefault(json.dumps(ex, sort_keys=True), ex)
+                    for term in (th, hybrid_term(th, t0)):
+                        ex = term_to_explicit(ab, term) if term is not None else None
+                        if ex is not None:
+                            explicit_needed.setdefault(json.dumps(ex, sort_keys=True), ex)
             per_case.append((h, i, o, rh, r0, th, t0))
     ekeys = list(explicit_needed)
     eres = dict(zip(ekeys, [r[-1] for r in pool.map([[explicit_needed[k]] for k in ekeys])]))
@@ -944,9 +967,25 @@ def run_histories(chk: Check, pool: Pool, mr: ModelRun, variant: str):
                           {'oracle': 'A2 write set (inline)', 'history': h[:i + 1], 'call': o, 'result': rh})
         actual_dep = val_of(rh) != val_of(r0)
         types_dep = (not actual_dep) and rh.get('types') != r0.get('types')
+        if types_dep and th is not None and th != t0 and th[0] != 'err':
+            # the bases differ: because the model-predicted semantics differ (then it is the cache), or because of
+            # the class registry?  T_h evaluated in a fresh process tells.
+            w = eres.get(json.dumps(term_to_explicit(ab, th), sort_keys=True))
+            if w is not None and w.get('types') == rh.get('types') and val_of(w) == val_of(rh):
+                types_dep = False
+                chk.count('A1.actual_dependence')
+                chk.count('A1.model_predicts_dependence')
+                small = shrink_history(pool, h, i, lambda a, b: a.get('types') != b.get('types'),
+                                       classify_predicted(th, t0, True))
+                chk.violation(classify_predicted(th, t0, True),
+                              f'{kind}: the classes of the result depend on earlier calls (predicted by the faithful model)',
+                              {'oracle': 'A1 fresh-process replay', 'history': small, 'after_history': rh, 'fresh': r0,
+                               'model': [th, t0]})
+                continue
         if types_dep:
             chk.count('A1.synth_bases_differ')
-            small = shrink_history(pool, h, i, lambda a, b: val_of(a) == val_of(b) and a.get('types') != b.get('types'))
+            small = shrink_history(pool, h, i, lambda a, b: val_of(a) == val_of(b) and a.get('types') != b.get('types'),
+                                   'history:synth-class-bases')
             chk.violation('history:synth-class-bases',
                           'the bases of a synthesized node class depend on which call synthesized the name first '
                           f'(objectmodel/synth.py registry is keyed by class name only): {kind}',
@@ -956,7 +995,7 @@ def run_histories(chk: Check, pool: Pool, mr: ModelRun, variant: str):
             # generated parser calls: no shared state is involved in the model
             if actual_dep:
                 n_unexpl += 1
-                small = shrink_history(pool, h, i, lambda a, b: val_of(a) != val_of(b))
+                small = shrink_history(pool, h, i, lambda a, b: val_of(a) != val_of(b), f'history:unexplained:{kind}')
                 chk.violation(f'history:unexplained:{kind}', f'{kind} returns something else after a history',
                               {'oracle': 'A1 fresh-process replay', 'history': small, 'after_history': rh, 'fresh': r0})
             continue
@@ -979,7 +1018,7 @@ def run_histories(chk: Check, pool: Pool, mr: ModelRun, variant: str):
             n_model_bad += 1
             if not predicted and actual_dep:
                 n_unexpl += 1
-                small = shrink_history(pool, h, i, lambda a, b: val_of(a) != val_of(b))
+                small = shrink_history(pool, h, i, lambda a, b: val_of(a) != val_of(b), f'history:unexplained:{kind}')
                 chk.violation(f'history:unexplained:{kind}',
                               f'{kind} returns something else after a history and Lib/Api.v predicts no dependence',
                               {'oracle': 'A1 fresh-process replay + model', 'history': small, 'after_history': rh,
@@ -991,15 +1030,21 @@ def run_histories(chk: Check, pool: Pool, mr: ModelRun, variant: str):
             continue
         if actual_dep:
             chk.count('A1.actual_dependence')
-            sig = classify_predicted(th, t0)
-            small = shrink_history(pool, h, i, lambda a, b: val_of(a) != val_of(b))
+            hyb = hybrid_term(th, t0)
+            hyb_val = eres.get(json.dumps(term_to_explicit(ab, hyb), sort_keys=True)) if hyb is not None else None
+            sig = classify_predicted(th, t0, hyb_val is not None and val_of(hyb_val) == val_of(rh))
+            small = shrink_history(pool, h, i, lambda a, b: val_of(a) != val_of(b), sig)
             chk.violation(sig, f'{kind}: the result depends on earlier calls (predicted by the faithful model): '
                                f'after the history {json.dumps(val_of(rh))[:160]}, in a fresh process {json.dumps(val_of(r0))[:160]}',
                           {'oracle': 'A1 fresh-process replay', 'history': small, 'after_history': rh, 'fresh': r0,
                            'model': [th, t0]})
+    unl = [v['signature'] for v in chk.violations]
     chk.obligation('A1:Lib/Api.v predicts every in-history result (explicit evaluation of T_h in a fresh process)',
-                   'correspondence', n_model_bad == 0, f'{n_model_bad} mismatches')
-    chk.obligation('A1:no history dependence that the model does not predict', 'oracle', n_unexpl == 0)
+                   'correspondence', not any(x.startswith('corr:api-model') for x in unl), f'{n_model_bad} mismatches')
+    chk.obligation('A1:no history dependence that the model does not predict', 'oracle',
+                   not any(x.startswith('history:unexplained') for x in unl))
+    chk.obligation('A1:every call returns what it returns in a fresh process (up to the recorded findings)', 'oracle',
+                   not any(x.startswith('history:') for x in unl))
     chk.sample({'history': histories[0], 'in_process': [val_of(r) for r in in_proc[0]][:3]})
     chk.sample({'model_request': reqs2[0][:400], 'model_reply': str(second[0])[:400]})
 
@@ -1035,8 +1080,16 @@ def _subst_vars(sxs, ok):
     return out
 
 
-def shrink_history(pool: Pool, h, i, differs):
-    """drop earlier calls while call i still differs from its fresh replay"""
+_SHRUNK: set = set()
+
+
+def shrink_history(pool: Pool, h, i, differs, sig=None):
+    """drop earlier calls while call i still differs from its fresh replay (done once per signature: only the first
+    occurrence of a signature is stored in the replay file)"""
+    if sig is not None:
+        if sig in _SHRUNK:
+            return list(h[:i + 1])
+        _SHRUNK.add(sig)
     prefix = list(h[:i])
     call = h[i]
     need = {id(o) for o in self_contained(h, i)}
@@ -1119,9 +1172,9 @@ def run_writeset(chk: Check, pool: Pool):
             chk.violation('writeset:first-parse:' + '+'.join(sorted({f'{c}.{a}' for c, a, _ in unexpected}))[:120],
                           f'the first parse wrote attributes outside the modelled cache set: {unexpected[:6]}',
                           {'oracle': 'A2 deep write set', 'script': sc, 'writes': r['first']})
-        later = r['second'] + r['third']
-        # the builder's registry of synthesized constructors grows with the classes a text needs: cache[k] := f k
-        later = [w for w in later if not (w[1] == '_registry')]
+        # the second parse (another text) may fill the caches of nodes it is the first to visit; the third parse
+        # repeats the first one: everything it needs is cached, it must not write anything
+        later = [w for w in r['second'] if w[1] not in ALLOWED_FIRST_ATTRS] + r['third']
         if later:
             bad_later += 1
             chk.violation('writeset:later-parse:' + '+'.join(sorted({f'{c}.{a}' for c, a, _ in later}))[:120],
@@ -1136,8 +1189,9 @@ def run_writeset(chk: Check, pool: Pool):
             chk.violation('history:same-model-repeat', 'the same parse on the same model returned something else the second '
                           'time (another parse, possibly failed, in between)',
                           {'oracle': 'A2 repeat', 'script': sc, 'results': r['results']})
-    chk.obligation('A2:first parse writes only modelled caches; later parses write nothing; public model unchanged',
-                   'oracle', bad_first + bad_later + bad_pub + bad_rep == 0)
+    chk.obligation('A2:first parse writes only modelled caches; a repeated parse writes nothing; public model unchanged',
+                   'oracle', not any(v['signature'].startswith(('writeset:', 'history:same-model-repeat'))
+                                     for v in chk.violations))
     if res:
         chk.sample({'writeset_first_parse': next((r['first'] for r in res if 'first' in r and r['first']), [])[:8]})
 
@@ -1174,14 +1228,18 @@ def run_threads(chk: Check, pool: Pool):
         if r['nbad']:
             nbad += 1
             b = r['bad'][0]
-            if b['got'].get('exc') == 'TypeResolutionError' and b['want'].get('exc') != 'TypeResolutionError':
+            cold = sc[0]['cold']
+            if cold and b['got'].get('exc') == 'TypeResolutionError' and b['want'].get('exc') != 'TypeResolutionError':
                 sig = 'threads:synthesize-race:TypeResolutionError'
+            elif cold and b['got'].get('exc') in ('RuntimeError', 'TypeError') and b['want'].get('exc') != b['got'].get('exc'):
+                sig = 'threads:cold-optimize-race:' + b['got']['exc']
             else:
                 sig = 'threads:result-differs:' + (b['got'].get('exc') or 'value')
             chk.violation(sig, f'a parse on a model shared by {len(sc[0]["calls"])} threads returned {json.dumps(b["got"])[:120]} '
                                f'instead of its sequential result {json.dumps(b["want"])[:120]}',
                           {'oracle': 'threads vs sequential', 'script': sc, 'bad': r['bad'], 'nbad': r['nbad']})
-    chk.obligation('T:threaded results equal sequential results', 'oracle', nbad == 0, f'{nbad} scripts differ')
+    chk.obligation('T:threaded results equal sequential results (up to the recorded findings)', 'oracle',
+                   not any(v['signature'].startswith('threads:') for v in chk.violations), f'{nbad} scripts differ')
 
 
 def main():
